@@ -49,6 +49,16 @@ func (c *Ctx) mapComps(mt *types.Map) (has, val, ks, vs string) {
 	return base + ".has", base + ".val", ks, vs
 }
 
+// mapLeaves: the heap components (name, sort) that hold the contents of every map of type mt.
+func (c *Ctx) mapLeaves(mt *types.Map) [][2]string {
+	has, val, ks, vs := c.mapComps(mt)
+	return [][2]string{
+		{has, "(Array Int (Array " + ks + " Bool))"},
+		{val, "(Array Int (Array " + ks + " " + vs + "))"},
+		{"M:" + typeName(mt) + ".len", "(Array Int Int)"},
+	}
+}
+
 func (c *Ctx) mapHas(st *State, mt *types.Map, ref, key string) string {
 	has, _, ks, _ := c.mapComps(mt)
 	h := c.H(st, has, "(Array Int (Array "+ks+" Bool))")
